@@ -3,6 +3,7 @@ package props
 import (
 	"fmt"
 	"math/rand/v2"
+	"regexp"
 	"strings"
 
 	"github.com/ipld/go-ipld-prime/datamodel"
@@ -264,6 +265,21 @@ func c12Case(w *mon.W, s ref.Sel, d ref.V) {
 	}
 	if len(s) >= 2 || hasSliceOrNeg(s) {
 		w.Distinct(text, d.String())
+	}
+	// the same selector with its integers spelled with leading zeros ("[010]" is index ten, not
+	// eight): where the parser accepts that spelling, it must resolve like the canonical one
+	if padded := padInts(text); padded != text {
+		if alt, perr := c12Select(padded, dn); perr == nil {
+			w.Eval(1)
+			w.Cover("spelling/zero-padded-integers")
+			if !alt.same(full) {
+				m := caseOf()
+				m["zero_padded_selector"] = padded
+				w.Violate("spelling-dependent/zero-padded/"+segShape(s), fmt.Sprintf("selector %q resolves to %s, the same selector with zero-padded integers %q to %s", text, full, padded, alt), m)
+			}
+		} else {
+			w.Count("spelling/zero-padded-rejected-by-parser(not judged)", 1)
+		}
 	}
 	// coverage: which segment kind meets which data kind (along the model's walk)
 	cur := d
@@ -701,4 +717,48 @@ func c12Reuse(w *mon.W) {
 			}
 		}
 	}
+}
+
+var c12IntRun = regexp.MustCompile(`-?[0-9]+`)
+
+// padInts spells every integer between brackets with a leading zero (two for single digits).
+func padInts(text string) string {
+	var b strings.Builder
+	depth := 0
+	last := 0
+	quoted := false
+	for i := 0; i < len(text); i++ {
+		switch text[i] {
+		case '"':
+			quoted = !quoted
+		case '[':
+			if !quoted {
+				depth++
+			}
+		case ']':
+			if !quoted && depth > 0 {
+				// rewrite the integers of this bracket body
+				j := strings.LastIndex(text[:i], "[")
+				if j >= last && !strings.Contains(text[j:i], `"`) {
+					b.WriteString(text[last : j+1])
+					b.WriteString(c12IntRun.ReplaceAllStringFunc(text[j+1:i], func(m string) string {
+						neg := strings.HasPrefix(m, "-")
+						d := strings.TrimPrefix(m, "-")
+						if len(d) > 15 {
+							return m
+						}
+						d = "0" + d
+						if neg {
+							return "-" + d
+						}
+						return d
+					}))
+					last = i
+				}
+				depth--
+			}
+		}
+	}
+	b.WriteString(text[last:])
+	return b.String()
 }
